@@ -2,7 +2,8 @@
 (***************************************************************************)
 (* C16 - the abstract meaning of "deletion never loses data", stated on a   *)
 (* client-visible history of concurrent requests on ONE bucket and ONE key: *)
-(*   H.ops    request id -> [op, res, part, who (the account)]                *)
+(*   H.ops    request id -> [op, res, part, who (the account), inv, ret]      *)
+(*              inv / ret  logical instants of the request and of its reply  *)
 (*              op   "put" | "cmp" (CompleteMultipartUpload) | "mpu"         *)
 (*                   (CreateMultipartUpload, then UploadPart) | "del"        *)
 (*                   (DeleteBucket) | "mk" (CreateBucket)                    *)
@@ -15,6 +16,9 @@
 (*                      owner's grant)                                       *)
 (*              obj     "none" | id of the upload whose bytes GetObject       *)
 (*                      returns | "mixed" (bytes of no upload)               *)
+(*              vers    (recorded when the bucket is versioned) the ids of   *)
+(*                      the uploads whose bytes some listed version of the   *)
+(*                      key returns                                          *)
 (* The statement: no object whose upload was acknowledged is lost to a      *)
 (* concurrent DeleteBucket - either the delete fails as not empty or the    *)
 (* upload fails as no such bucket.                                           *)
@@ -34,6 +38,16 @@ NoZombieBucket(H) == H.final.bucket => H.final.owned
 \* an acknowledged upload is retrievable when no DeleteBucket succeeded at all
 AckedDurable(H) == (~Deleted(H) /\ Acked(H) # {}) => Retrievable(H)
 
+\* in a versioned bucket every acknowledged upload is a version of its own: a DeleteBucket
+\* that did not succeed (it found the bucket not empty, or lost the race) takes none away
+\* (two uploads of one key that OVERLAP each other are the business of the version-history
+\* property, not of this one: here the uploads are one after the other, only the delete
+\* overlaps them)
+Sequential(H, S) == \A p, q \in S : p = q \/ H.ops[p].ret < H.ops[q].inv \/ H.ops[q].ret < H.ops[p].inv
+AckedVersionsKept(H) ==
+    ("vers" \in DOMAIN H.final /\ ~Deleted(H) /\ H.final.bucket /\ Sequential(H, Uploads(H))) =>
+        \A p \in Acked(H) : \E i \in DOMAIN H.final.vers : H.final.vers[i] = p
+
 \* creating a bucket that exists fails: without a successful DeleteBucket in between, two
 \* CreateBucket requests of DIFFERENT accounts for one name are never both acknowledged
 Creators(H) == {p \in DOMAIN H.ops : H.ops[p].op = "mk" /\ H.ops[p].res = "ok"}
@@ -43,11 +57,13 @@ Broken(H) == (IF AckedNotLost(H) THEN {} ELSE {"acked-lost"})
         \cup (IF NoZombieBucket(H) THEN {} ELSE {"zombie-bucket"})
         \cup (IF AckedDurable(H) THEN {} ELSE {"acked-missing"})
         \cup (IF OneCreator(H) THEN {} ELSE {"two-creators"})
+        \cup (IF AckedVersionsKept(H) THEN {} ELSE {"acked-version-lost"})
 HistoryOK(H) == Broken(H) = {}
 Classify(H) ==
     IF ~AckedNotLost(H) THEN "acked-lost"
     ELSE IF ~NoZombieBucket(H) THEN "zombie-bucket"
     ELSE IF ~AckedDurable(H) THEN "acked-missing"
     ELSE IF ~OneCreator(H) THEN "two-creators"
+    ELSE IF ~AckedVersionsKept(H) THEN "acked-version-lost"
     ELSE "ok"
 =============================================================================
